@@ -252,8 +252,10 @@ func (srv *Srv) open(req *SrvReq) {
 }
 
 func (srv *Srv) openPost(req *SrvReq) {
-	if req.Fid != nil {
-		req.Fid.opened = req.Rc != nil && req.Rc.Type == Ropen
+	// only a successful open changes the fid; a refused or failed one
+	// (also on a fid that is already open) leaves it as it was
+	if req.Fid != nil && req.Rc != nil && req.Rc.Type == Ropen {
+		req.Fid.opened = true
 	}
 }
 
